@@ -464,6 +464,51 @@ impl World {
 		Ok(())
 	}
 
+	/// Build and process one block on top of `prev` (any known header: the head, or an
+	/// ancestor to start / extend a side branch) with the reward going to `wallet`.
+	/// Returns the new block's header and whether it became the chain head.
+	pub fn mine_on(
+		&self,
+		prev: &grin_core::core::BlockHeader,
+		wallet: &str,
+		txs: &[Transaction],
+	) -> Result<(grin_core::core::BlockHeader, bool), Error> {
+		let w = self.w(wallet);
+		let fees = txs.iter().map(|t| t.fee()).sum();
+		let bf = BlockFees {
+			fees,
+			key_id: None,
+			height: prev.height + 1,
+		};
+		let cb = w.with(|b| foreign::build_coinbase(b, w.mask(), &bf, false))?;
+		let block = self.node.build_block(prev, txs, (cb.output, cb.kernel));
+		let header = block.header.clone();
+		let head = self
+			.node
+			.process(block)
+			.map_err(|e| Error::GenericError(format!("process_block: {}", e)))?;
+		Ok((header, head))
+	}
+
+	/// header of the current chain at a height
+	pub fn header_at(&self, height: u64) -> grin_core::core::BlockHeader {
+		self.node.chain.get_header_by_height(height).unwrap()
+	}
+
+	/// Replace the blocks above `fork_height` by a longer side branch of `len` blocks mined to
+	/// `wallet` (first fork block carries `txs`). Returns true if the branch became the main chain.
+	pub fn fork(&self, fork_height: u64, len: usize, wallet: &str, txs: &[Transaction]) -> bool {
+		let mut prev = self.header_at(fork_height);
+		let mut head = false;
+		for i in 0..len {
+			let t: &[Transaction] = if i == 0 { txs } else { &[] };
+			let (h, is_head) = self.mine_on(&prev, wallet, t).unwrap();
+			prev = h;
+			head = is_head;
+		}
+		head
+	}
+
 	/// mine n empty-reward blocks to a wallet
 	pub fn mine_n(&self, wallet: &str, n: usize) {
 		for _ in 0..n {
@@ -575,6 +620,10 @@ pub struct ProjOpts {
 	pub slots: Vec<Uuid>,
 	/// include heights of outputs
 	pub heights: bool,
+	/// replace numeric log ids by a description of the entry they refer to and sort entries by
+	/// content: several coinbase outputs confirmed by one refresh get their log ids in
+	/// HashMap iteration order, which is not a function of the history
+	pub canon_ids: bool,
 }
 
 fn slot_of(opts: &ProjOpts, id: &Option<Uuid>) -> Value {
@@ -674,7 +723,7 @@ pub fn project_wallet(w: &WalletH, opts: &ProjOpts) -> Value {
 			ctxs.push(json!({"slot": i, "ctx": project_context(&c)}));
 		}
 	}
-	let tx_v: Vec<Value> = txs
+	let mut tx_v: Vec<Value> = txs
 		.iter()
 		.map(|t| {
 			let stored = t.stored_tx.as_ref().map(|f| {
@@ -683,6 +732,22 @@ pub fn project_wallet(w: &WalletH, opts: &ProjOpts) -> Value {
 			project_tx(t, opts, stored)
 		})
 		.collect();
+	let mut out_v: Vec<Value> = outs.iter().map(|o| project_output(o, opts)).collect();
+	if opts.canon_ids {
+		for (o, ov) in outs.iter().zip(out_v.iter_mut()) {
+			let e = txs
+				.iter()
+				.find(|t| Some(t.id) == o.tx_log_entry && t.parent_key_id == o.root_key_id);
+			ov["log"] = match e {
+				Some(t) => json!([txtype_str(&t.tx_type), slot_of(opts, &t.tx_slate_id), t.confirmed]),
+				None => json!(o.tx_log_entry.is_some()),
+			};
+		}
+		for t in tx_v.iter_mut() {
+			t.as_object_mut().unwrap().remove("id");
+		}
+		tx_v.sort_by_key(|t| serde_json::to_string(t).unwrap());
+	}
 	let (init, scanned) = w.with(|b| {
 		(
 			format!("{:?}", b.init_status().unwrap()),
@@ -690,7 +755,7 @@ pub fn project_wallet(w: &WalletH, opts: &ProjOpts) -> Value {
 		)
 	});
 	let mut v = json!({
-		"outputs": outs.iter().map(|o| project_output(o, opts)).collect::<Vec<_>>(),
+		"outputs": out_v,
 		"txs": tx_v,
 		"accounts": acct_v,
 		"contexts": ctxs,
